@@ -1,15 +1,16 @@
 """C08: densified one-permutation hashing is an unbiased Jaccard LSH at any fill ratio."""
 import json
 import vlib
-from props import sklib
+from props import sklib, estlib
 
 ID = "C08"
 LEVEL = "proof"
 PROPERTIES_MODULE = "Properties.C08"
 COQ_TARGETS = ["Properties/C08.vo", "Model/Dispatch.vo"]
-THEOREMS = ["C08_source_flags", "C08_collision_iff", "C08_opt_densify_copies_populated", "C08_rev_densify_copies_populated"]
+THEOREMS = ["C08_source_flags", "C08_collision_iff", "C08_opt_densify_copies_populated", "C08_rev_densify_copies_populated",
+            "C08_collision_share_under_uniform_ranking", "C08_estimator_is_match_fraction"]
 AXIOMS_ALLOWED = []
-TRANSLATORS = [("flags-dens", sklib.translate_flags_dens)]
+TRANSLATORS = [("flags-dens", sklib.translate_flags_dens), estlib.translator("EstIdx")]
 TRUSTED_BASE = [
     "hand model coq/Model/DensMinHash.v tied to the code by the per-run correspondence of C09 (all four arrays over histories)",
     "item values (r, bin, hash) are drawn by the harness through Uniform<F> and Uniform<usize>(0, m) from the generator seeded with the "
@@ -34,11 +35,13 @@ def correspond(run):
 
 
 def search(run):
+    estlib.search(run, "EstIdx")
+    sklib.direct_props(run, ["reinit-optdens", "reinit-revdens", "dens-resume"])
     rc, js, out, err = vlib.harness(["sk-mc", "--seed", run.seed, "--trials", 3000], timeout=3000)
     if rc != 0 or js is None:
         return
-    for f in js["found"][:1]:
-        if "Dens" in f["sketcher"]:
+    for f in [f for f in js["found"] if "Dens" in f["sketcher"]][:1]:
+        if True:
             run.violation("dens-bias", "%s, m=%d, %s: mean match fraction %.5f vs J = %.5f (z = %.1f over %d trials)" % (
                 f["sketcher"], f["m"], f["family"], f["mean"], f["j"], f["z"], f["trials"]),
                 {"kind": "impl-input", "input": f, "observed": f["mean"], "expected": f["j"]})
